@@ -338,8 +338,8 @@ Print Assumptions C16_example_after_save_load.
        dictionary grows by /Filter /FlateDecode while the content shrinks by at least COMPRESS_SLACK + 1 = 20 bytes: not
        derived).
    ------------------------------------------------------------------------------------------ *)
-From LV Require Spec.StreamCodecSpec Proofs.ObjectRtProofs Proofs.ComposeTextDecode Proofs.ComposeTextCompress
-  Proofs.ComposeTextCompressDomain.
+From LV Require Spec.StreamCodecSpec Spec.ZlibStoredSpec Proofs.InflateProofs Proofs.ObjectRtProofs Proofs.ComposeTextDecode
+  Proofs.ComposeTextCompress Proofs.ComposeTextCompressDomain.
 Section DecodeAndCompress.
   Import Model.Save Model.Xref Model.Loader Spec.SaveSpec Proofs.ComposeReload Proofs.ComposeText.
   Import Spec.StreamCodecSpec Proofs.ObjectRtProofs Proofs.ComposeTextDecode Proofs.ComposeTextCompress
@@ -464,6 +464,29 @@ Section DecodeAndCompress.
     exact (extract_written_after_compress_save_load_dom gallina_inflate gallina_lzw deflate FilterProofsCodec.gallina_inflate_implements).
   Qed.
 
+  (* ... and with a stored-block compressor (Spec/ZlibStoredSpec.v, any block size) NO assumption about third-party code
+     is left: inflate (zlib_stored k c) = Some c is C09_inflate_stored_any_block_size.  (Such a compressor never makes a
+     stream shorter, so Document::compress keeps every stream: the instance shows that the assumption of the general
+     theorem is about the compressor's output only.) *)
+  Theorem C16_extract_after_compress_save_load_stored :
+    forall k nocomp xt d fuel pid font t fname size ps,
+      savable d -> known_deep d = false -> unreferenced xt d -> content_normal fuel (d_objects d) pid ->
+      small_file xt (compress_doc (ZlibStoredSpec.zlib_stored k) nocomp d) ->
+      page_written (stream_decomp gallina_inflate gallina_lzw) fuel (d_objects d) pid fname font (show_ops fname size t ps) ->
+      operand_dom size -> Forall piece_i64 ps ->
+      get_font_encoding font = Ok (EncOneByte t) ->
+      Forall (piece_over (in_repertoire t)) ps ->
+      exists d' p',
+        load (so_bytes (save xt (compress_doc (ZlibStoredSpec.zlib_stored k) nocomp d))) = LOk d' (xtype_of xt) /\
+        doc_page (stream_decomp gallina_inflate gallina_lzw) content_decode fuel (d_objects d') pid = Some p' /\
+        extract_text [p'] [1] = Ok (shown_text ps).
+  Proof.
+    intros k nocomp xt d fuel pid font t fname size ps S K U Hn Hsm.
+    apply (extract_written_after_compress_save_load_dom gallina_inflate gallina_lzw (ZlibStoredSpec.zlib_stored k)
+             FilterProofsCodec.gallina_inflate_implements nocomp xt d fuel pid font t fname size ps S K U Hn Hsm).
+    intros id sd c _. apply InflateProofs.inflate_zlib_stored.
+  Qed.
+
   (* ANY pages, ANY Content::decode: Document::compress + save + load changes no extracted chunk and no extracted text
      (the harness verdict "after compress + save and reload" for arbitrary operation lists) *)
   Theorem C16_extract_same_after_compress_save_load :
@@ -491,6 +514,7 @@ Print Assumptions C16_compress_keeps_domain.
 Print Assumptions C16_extract_after_compress_save_load.
 Print Assumptions C16_extract_blocks_after_compress_save_load.
 Print Assumptions C16_extract_after_compress_save_load_gallina.
+Print Assumptions C16_extract_after_compress_save_load_stored.
 Print Assumptions C16_extract_same_after_compress_save_load.
 
 (* non-vacuity of (3''): a five-object document whose page content is Content::encode of text-showing operations (187
